@@ -92,6 +92,16 @@ EDITS = [
  ('alloc-no-mark-busy', 'C01', 'agent/scheduler/base.py',
   "            self._change_slot_states(slots, rpc.BUSY)\n            task['slots']     = slots",
   "            task['slots']     = slots", '_try_allocation'),
+ ('stop-overwrites-cause', 'C14', 'agent/agent_0.py',
+  "        if not self._final_cause:\n            self._final_cause = 'cancel'",
+  "        self._final_cause = 'cancel'", 'Agent_0.stop'),
+ ('finalize-timeout-canceled', 'C14', 'agent/agent_0.py',
+  "        if   self._final_cause == 'timeout'  : state = rps.DONE",
+  "        if   self._final_cause == 'timeout'  : state = rps.CANCELED", 'finalize'),
+ ('pilot-progress-final-left', 'C14', 'states.py',
+  "    if cur >= tgt:\n        # nothing to do, a similar or better progression happened earlier\n        return [current, []]\n\n    # dig out all intermediate states, skip current\n    passed = list()\n    for i in range(cur + 1,tgt):\n        passed.append(_pilot_state_inv[i])",
+  "    if cur > tgt:\n        # nothing to do, a similar or better progression happened earlier\n        return [current, []]\n\n    # dig out all intermediate states, skip current\n    passed = list()\n    for i in range(cur + 1,tgt):\n        passed.append(_pilot_state_inv[i])",
+  '_pilot_state_progress'),
 ]
 
 
